@@ -42,6 +42,15 @@ type c11Target struct {
 	X    int
 }
 
+// maxExecPerCase caps the schedules explored inside one case; a capped exploration is
+// reported (counter capped_explorations, exhaustive=false) and never judged a failure.
+func maxExecPerCase() int {
+	if fw.Cur != nil && fw.Cur.Thorough() {
+		return 3000000
+	}
+	return 120000
+}
+
 func requireInstrumented() *fw.Fail {
 	if !vsched.Instrumented {
 		return fw.Failf("harness built against the instrumented package (go build -overlay)", "package bcl is not instrumented: this check must be run through run.sh")
@@ -190,7 +199,7 @@ func c11Exec(cs fw.Case) *fw.Fail {
 	}
 	total := 0
 	for b := 0; b <= c.Bound; b++ {
-		x := &vsched.Explorer{Bound: b, Body: body, Check: check, Stop: func() bool { return fw.Cur != nil && fw.Cur.Expired() }}
+		x := &vsched.Explorer{Bound: b, Body: body, Check: check, Stop: func() bool { fw.Heartbeat(); return fw.Cur != nil && fw.Cur.Expired() }, MaxExec: maxExecPerCase()}
 		x.Explore()
 		total = x.Executions
 		if x.Infra != "" {
@@ -202,6 +211,9 @@ func c11Exec(cs fw.Case) *fw.Fail {
 		}
 		if x.Capped {
 			fw.Tally("capped_explorations", 1)
+			if fw.Cur != nil {
+				fw.Cur.Cap(fmt.Sprintf("schedule cap reached at preemption bound %d for some scripts (lower bounds completed)", b))
+			}
 			break
 		}
 		if b == c.Bound {
